@@ -9,6 +9,10 @@ from .._compat import number_types, string_types
 NoneType = type(None)
 
 
+def is_number(value):
+    return isinstance(value, number_types) and not isinstance(value, bool)
+
+
 class ExcelComparator(object):
 
     def __init__(self, value):
@@ -36,16 +40,16 @@ class ExcelComparator(object):
                 return ExcelComparator(other).__gt__(self.value)
         if type(self.value) != type(other):
             other = self.convert_other(other)
-        if type(self.value) != type(other) and not (isinstance(self.value, number_types) and isinstance(other, number_types)):
+        if type(self.value) != type(other) and not (is_number(self.value) and is_number(other)):
             # if the type is still different
             if isinstance(self.value, bool):
                 return False  # bool is the biggest in XL
             if isinstance(self.value, string_types):
                 if isinstance(other, bool):
                     return True
-                if isinstance(other, number_types):
+                if is_number(other):
                     return False
-            if isinstance(self.value, number_types):
+            if is_number(self.value):
                 return True
         return self.value < other
 
@@ -56,15 +60,15 @@ class ExcelComparator(object):
             return ExcelComparator(other).__lt__(self.value)
         if type(self.value) != type(other):
             other = self.convert_other(other)
-        if type(self.value) != type(other) and not (isinstance(self.value, number_types) and isinstance(other, number_types)):
+        if type(self.value) != type(other) and not (is_number(self.value) and is_number(other)):
             if isinstance(self.value, bool):
                 return True  # bool is the biggest in XL
             if isinstance(self.value, string_types):
                 if isinstance(other, bool):
                     return False
-                if isinstance(other, number_types):
+                if is_number(other):
                     return True
-            if isinstance(self.value, number_types):
+            if is_number(self.value):
                 return False
         return self.value > other
 
@@ -75,6 +79,8 @@ class ExcelComparator(object):
             return ExcelComparator(other).__eq__(self.value)
         if type(self.value) != type(other):
             other = self.convert_other(other)
+        if isinstance(self.value, bool) != isinstance(other, bool):
+            return False
         return self.value == other
 
     def __ge__(self, other):
